@@ -119,6 +119,13 @@ fn main() {
         }
         _ => usage(),
     };
+    // the aggregating checks judge the other checks' spaces with a reduced oracle
+    if prop == "C02" && mode == Mode::Full {
+        mode = Mode::Monitor;
+    }
+    if prop == "C03" && mode == Mode::Full {
+        mode = Mode::PanicOnly;
+    }
     let findings = load_findings(&format!("{verif_dir}/known_findings.json"), &prop);
     let env = Env { prop: prop.clone(), tier, seed, findings, threads, profile, replay, verif_dir, mode };
     let code = checks::dispatch(&env);
